@@ -498,11 +498,12 @@ func runOpcodeProbe(index int64) (desc string, bad *hx.Violation) {
 // ---------------------------------------------------------------- random NBNS workload
 
 type nbReq struct {
-	id    uint16
-	bytes []byte
-	sig   string // request bytes without the id: identical sig => identical expected response
-	tcp   bool
-	churn bool // asks about the group that is being churned
+	id         uint16
+	bytes      []byte
+	sig        string // request bytes without the id: identical sig => identical expected response
+	tcp        bool
+	churn      bool // asks about the group that is being churned
+	mustAnswer bool // a well-formed query that fits the receive buffer: the quiescent server answers it
 }
 
 type nbClient struct {
